@@ -1,12 +1,17 @@
 """G-frag: random programs of the container fragment (lean/NimaVerif/Model/Cst.lean): nested sets,
-`rec` sets, lists, parenthesised expressions and function applications (curried, with comments between
-function and argument) over leaf values, depth <= 4, with random whitespace in every gap and line /
-single-line block comments between items, at ends of lines and (with probability `p_inner`) between
-the tokens of a binding. Never starts with whitespace. Small by construction (py-tree-sitter 0.26
-crashes beyond ~250 lines)."""
+`rec` sets, lists, parenthesised expressions, function applications (curried, with comments between
+function and argument) and `with E; B` / `assert E; B` over leaf values, depth <= 4, with random
+whitespace in every gap and line / single-line block comments between items, at ends of lines and
+(with probability `p_inner`) between the tokens of a binding. A `with` / `assert` node has
+whitespace-only gaps before its head, its `;` and its body, except with probability `p_kw` per node,
+where these three gaps may hold comments too. `with` / `assert` stand bare only where the grammar
+reads them as one expression (top level, binding value, inside parentheses, body of another `with` /
+`assert`, rarely as the head of one); elsewhere they are parenthesised. Never starts with whitespace.
+Small by construction (py-tree-sitter 0.26 crashes beyond ~250 lines)."""
 from __future__ import annotations
 
 import random
+import re
 
 GAPS = ["", " ", "  ", "\t", "\n", "\n\n", "\n\n\n", "\n   "]
 SEPS = [" ", "  ", "\t", "\n", "\n\n", "\n\n\n", "\n   "]
@@ -15,11 +20,17 @@ LEAVES = ["a", "foo", "true", "false", "null", "0", "1", "42", "3.14", ".5", '"s
 NAMES = ["a", "b", "foo", '"q r"', "x'", "c-d", '"é"']
 FUNCS = ["f", "foo", "x'", "b-c", "_u", "import"]
 WS = (" ", "\t", "\n")
+# tree-sitter-nix quirk: in the trivia run that follows a `./…` / `../…` / `~/…` path, two block comments
+# with nothing between them (`*//*`) are a syntax error; such documents are not generated
+PATH_QUIRK = re.compile(r"(?:nix|~/h)(?:\s|#[^\n]*\n|/\*.*?\*/)*?/\*.*?\*//\*")
 
 
 class FragGen:
-    def __init__(self, rng: random.Random, p_cmt: float, p_inner: float):
+    def __init__(self, rng: random.Random, p_cmt: float, p_inner: float, p_kw: float = 0.25, p_kw_cmt: float = 0.4):
+        """`p_kw`: probability that a `with` / `assert` node may have comments in its three inner gaps;
+        `p_kw_cmt`: comment density (as for `gap`) in the inner gaps of such a node"""
         self.rng, self.p_cmt, self.p_inner, self.n = rng, p_cmt, p_inner, 0
+        self.p_kw, self.p_kw_cmt = p_kw, p_kw_cmt
 
     def comment(self):
         self.n += 1
@@ -71,18 +82,41 @@ class FragGen:
             g = " "
         if a[0] in "./~<" and not g.endswith(WS):
             g += " "
-        return f + g + a
+        return f + self._after(f, f, g) + a   # curried: the function may end in a path
+
+    def kw(self, depth: int) -> str:
+        """`with` g1 environment g2 `;` g3 body  /  `assert` g1 condition g2 `;` g3 body; the head is any
+        expression (a `with` / `assert` there is mostly parenthesised), the body extends to the right as far
+        as it can, so it may be a bare application or another `with` / `assert`"""
+        p = self.p_kw_cmt if self.rng.random() < self.p_kw else 0.0
+        s = self.rng.choice(["with", "with", "assert"])
+        h = self.expr(depth - 1, "head")
+        g = self.gap(p)
+        if not g.endswith(WS) and not (g == "" and h[0] in "[{(") and not (g.endswith("*/") and h[0] not in "./~<"):
+            g += " "   # `witha`, `with./p.nix`, `with/*c*/./p.nix` … would be other tokens
+        s += g + h
+        s += self._after(s, h, self.gap(p)) + ";"
+        g = self.gap(p)
+        b = self.expr(depth - 1, "body")
+        if g.endswith("*/") and b[0] in "./~<":
+            g += " "
+        return s + g + b
 
     def expr(self, depth: int, ctx: str = "top") -> str:
         r = self.rng.random()
-        if depth <= 0 or r < 0.25:
+        if depth <= 0 or r < 0.2:
             return self.rng.choice(LEAVES)
-        if r < 0.37:
+        if r < 0.3:
             return self.paren(depth)
-        if r < 0.5:
+        if r < 0.4:
             # a bare application only where the grammar reads it as one expression
-            return self.app(depth) if ctx in ("top", "value", "paren") else "(" + self.app(depth) + ")"
-        if r < 0.75:
+            return self.app(depth) if ctx in ("top", "value", "paren", "head", "body") else "(" + self.app(depth) + ")"
+        if r < 0.6:
+            # `with` / `assert` reach as far right as they can: bare only where nothing may follow them
+            # but a closing token (`with with a; b; c` reads as `with (with a; b); c`)
+            bare = ctx in ("top", "value", "paren", "body") or (ctx == "head" and self.rng.random() < 0.25)
+            return self.kw(depth) if bare else "(" + self.kw(depth) + ")"
+        if r < 0.8:
             n = self.rng.choice([0, 0, 1, 1, 2, 3])
             s = "["
             for _ in range(n):
@@ -117,8 +151,10 @@ class FragGen:
         while self.rng.random() < self.p_cmt * 0.7:
             c, line = self.comment()
             s += c + ("\n" if line else self.rng.choice(["\n", " ", ""])) + self.rng.choice(["", "\n", "  "])
-        s += self.expr(depth)
-        s += self.gap(self.p_cmt, sep_before=False)
+        # `with …; …` around the whole file is the most common use: a few more of these
+        v = self.kw(depth) if depth > 0 and self.rng.random() < 0.12 else self.expr(depth)
+        s += v
+        s += self._after(s, v, self.gap(self.p_cmt, sep_before=False))
         if self.rng.random() < 0.6 and not s.endswith("\n"):
             s += "\n"
         return s
@@ -126,12 +162,13 @@ class FragGen:
 
 def programs(rng: random.Random, n: int):
     """yields n fragment programs (text); mixture of comment densities; about a third with comments
-    between the tokens of bindings"""
+    between the tokens of bindings; a quarter of the `with` / `assert` nodes (none / a quarter / half,
+    by document) may have comments in their inner gaps"""
     made = 0
     while made < n:
-        g = FragGen(rng, rng.choice([0.0, 0.2, 0.5]), rng.choice([0.0, 0.0, 0.3]))
+        g = FragGen(rng, rng.choice([0.0, 0.2, 0.5]), rng.choice([0.0, 0.0, 0.3]), rng.choice([0.0, 0.25, 0.5]))
         t = g.file(rng.randint(0, 4))
-        if t.count("\n") > 150 or t[:1] in WS:
+        if t.count("\n") > 150 or t[:1] in WS or PATH_QUIRK.search(t):
             continue
         made += 1
         yield t
